@@ -12,6 +12,7 @@ and rejection (XPST0003) of non-associative chains.
 import os
 import sys
 import json
+import re
 import time
 import random
 import hashlib
@@ -39,6 +40,13 @@ FIXED = [
     "( )", ". / .", ".. / a", "/ a", "// a", "/", "a // b", "$a << $b", "every $x in ( ) satisfies $x", "$f ( )", "a / text ( )",
     "a [ last ( ) ]", "count ( ( 1 , 2 ) )", "string-join ( ( 'a' , 'b' ) , '-' )", "1 => concat ( 'a' ) => upper-case ( )",
     "array:size ( [ ] )", "map:get ( map { 'k' : 1 } , 'k' )", "$f ( ? ) ( 1 )", "function ( ) { 1 } ( )",
+    "'a' => fn:upper-case ( )", "'a' => Q{http://www.w3.org/2005/xpath-functions}upper-case ( )", "4 => math:sqrt ( )",
+    "'a' => fn:concat ( 'b' ) => fn:upper-case ( )", "@n instance of attribute ( n ) *", ". instance of element ( a ) +",
+    ". instance of document-node ( element ( a ) ) ?", "1 cast as Q{http://www.w3.org/2001/XMLSchema}integer ?",
+    "$x treat as map ( xs:string , xs:integer ) *", ". instance of array ( xs:integer ) ?", ". instance of array ( xs:integer + )",
+    ". instance of map ( xs:integer , xs:string ? ) +", "\"it's\"", "'a\"b'", "12.", ".5", "0.00000001", "1 to 3",
+    "let $f := abs # 1 return - 1 => $f ( )", "Q{http://www.w3.org/2005/xpath-functions}abs ( - 1 )", "xs:string ( 1.50 )",
+    "1 instance of xs:integer ?", "( 1 , 2 ) instance of xs:integer +", "'x' castable as xs:integer ?",
 ]
 
 
@@ -70,8 +78,8 @@ def parser_for(v, compat=False):
     from elementpath.xpath31 import XPath31Parser
     cls = {'1.0': elementpath.XPath1Parser, '2.0': elementpath.XPath2Parser, '3.0': XPath30Parser, '3.1': XPath31Parser}[v]
     if compat and v != '1.0':
-        return cls(compatibility_mode=True)
-    return cls()
+        return cls(namespaces=dict(P.NAMESPACES), compatibility_mode=True)
+    return cls(namespaces=dict(P.NAMESPACES))
 
 
 SHARED = {}
@@ -228,8 +236,16 @@ def process_item(item, history=None):
     rt = outcome_of(parser_for(v, compat), src, root)
     out['roundtrip'] = rt
     if rt[0] != 'ok' or rt[1] != rec[1]:
+        extra = []
+        # is the difference exactly "a double literal came back as a decimal" (its source has no exponent)?
+        as_decimal = rec[1]
+        for node in _walk_ast(ast):
+            if node[0] == 'lit' and re.match(r'^\(\d+\.\d+\)$', node[2]):
+                as_decimal = as_decimal.replace(node[2], "(Decimal('%s'))" % node[2][1:-1])
+        if as_decimal != rec[1] and rt[0] == 'ok' and rt[1] == as_decimal:
+            extra.append('explained-by-double-literal-source')
         violate('ROUNDTRIP', 'source-does-not-reparse-to-same-tree:' + v,
-                'source %r of %r re-parses as %r, original tree %s' % (src, canon_text, rt[:2], rec[1]))
+                'source %r of %r re-parses as %r, original tree %s' % (src, canon_text, rt[:2], rec[1]), extra)
     elif len(rec) > 4 and len(rt) > 4 and rec[4] is not None and rt[4] is not None and rec[4] != rt[4]:
         violate('ROUNDTRIP', 'source-evaluates-differently:' + v,
                 '%r gives %r but its source %r gives %r' % (canon_text, rec[4], src, rt[4]))
@@ -240,6 +256,13 @@ def process_item(item, history=None):
 
 
 XP1_COMPARISONS = ('=', '!=', '<', '<=', '>', '>=')
+
+
+def _walk_ast(ast):
+    yield ast
+    for ch in ast[1:]:
+        if isinstance(ch, list):
+            yield from _walk_ast(ch)
 
 
 def _has_unparenthesised_comparison_chain(ast, tbl):
